@@ -164,7 +164,7 @@ func TestC04Sys(t *testing.T) {
 		}
 		rpool := c04KeyPool(r, 1+r.Intn(6))
 		nops := r.Intn(6)
-		kinds := []string{"SetHeader", "SendHeader", "SetTrailer", "SendMsg"}
+		kinds := []string{"SetHeader", "SendHeader", "SetTrailer", "SendMsg", "SendMsgBad"}
 		if !sc.k.stream {
 			kinds = kinds[:3]
 		}
@@ -184,6 +184,9 @@ func TestC04Sys(t *testing.T) {
 				scs = append(scs, c04Scenario{k: k, fail: fail, viaGrpc: via, ops: []c04Op{{"SetHeader", h1}, {"SendHeader", h2}, {"SetHeader", tr}, {"SetTrailer", tr}}})
 				if k.stream {
 					scs = append(scs, c04Scenario{k: k, fail: fail, viaGrpc: via, ops: []c04Op{{"SetHeader", h1}, {"SetHeader", h2}, {"SendMsg", nil}, {"SetHeader", tr}, {"SendMsg", nil}, {"SetTrailer", tr}}})
+					// the first send is rejected by the codec: the headers leave with the second one / with the status
+					scs = append(scs, c04Scenario{k: k, fail: fail, viaGrpc: via, ops: []c04Op{{"SetHeader", h1}, {"SendMsgBad", nil}, {"SetHeader", h2}, {"SendMsg", nil}, {"SetTrailer", tr}}})
+					scs = append(scs, c04Scenario{k: k, fail: fail, viaGrpc: via, ops: []c04Op{{"SetHeader", h1}, {"SendMsgBad", nil}, {"SetTrailer", tr}}})
 				}
 			}
 		}
@@ -234,6 +237,8 @@ func TestC04Sys(t *testing.T) {
 					}
 				case "SendMsg":
 					ss.SendMsg(bv([]byte("m")))
+				case "SendMsgBad":
+					ss.SendMsg("not a protobuf message") // rejected by the codec: nothing is written, nothing is consumed
 				}
 			}
 		}
@@ -379,6 +384,10 @@ func TestC04Sys(t *testing.T) {
 		for _, o := range sc.ops {
 			if o.kind == "SendHeader" {
 				flush = "SendHeader"
+				break
+			}
+			if o.kind == "SendMsgBad" {
+				flush = "after-a-rejected-send"
 				break
 			}
 			if o.kind == "SendMsg" {
